@@ -753,7 +753,7 @@ def transport_config(c, seed):
         if ctx.ref[n] is None:
             continue
         for chunks in _compositions(n):
-            for form in FORMS:
+            for form in c.get("forms", FORMS):
                 ats = range(len(chunks) + 1) if form.endswith("_at") else (None,)
                 for at in ats:
                     evals += 1
@@ -866,8 +866,9 @@ def subchecks(tier, seed):
                  if c["bank"] in ("gabor", "gammatone") and c["S"] in (2, 3) and c["pad"]
                  and c["window"] == "hamming"]
     ntr = 7 if tier == "quick" else 10
-    tr_cfgs = [dict(c, Nt=ntr + (2 if c["kind"] == "si" else 0)) for c in held_cfgs
-               if c["kind"] == "si" or c["L"] in (3, 4)]
+    tr_cfgs = [dict(c, Nt=ntr + (2 if c["kind"] == "si" else 0), forms=list(fg)) for c in held_cfgs
+               if c["kind"] == "si" or c["L"] in (3, 4)
+               for fg in (FORMS[:4], FORMS[4:6], FORMS[6:7], FORMS[7:8], FORMS[8:9], FORMS[9:])]
     il_alpha = [dict(kind="stft", bank="tri", L=5, S=2, style="causal", kaldi=False, window="hamming",
                      pad=True, energy=True, log=True, Ni=12),
                 dict(kind="stft", bank="tri", L=5, S=3, style="centered", kaldi=False, window="hamming",
